@@ -36,6 +36,7 @@ type genList struct {
 	SelFilterField        string
 	ElemFilterField       string
 	SelFields             []string
+	SliceField, SliceType string // first slice-typed (non-pointer) item field and its Go type, if any
 	CmdField              string
 	Function              string
 	ItemIsStruct          bool
@@ -133,6 +134,15 @@ func surveyLists(pkg *types.Package) ([]*genList, error) {
 				f := ist.Field(i)
 				tags := eebusTag(ist.Tag(i))
 				g.AllFields = append(g.AllFields, f.Name())
+				if _, isSlice := f.Type().Underlying().(*types.Slice); isSlice && g.SliceField == "" {
+					g.SliceField = f.Name()
+					g.SliceType = types.TypeString(f.Type(), func(p *types.Package) string {
+						if p == pkg {
+							return ""
+						}
+						return p.Name()
+					})
+				}
 				p, isPtr := f.Type().Underlying().(*types.Pointer)
 				kind, elem := "other", ""
 				if isPtr {
@@ -243,6 +253,9 @@ func genModel(repo, work string, overlay map[string]string) (string, error) {
 		fmt.Fprintf(&sb, "\t\t\tKeys: %s, KeyKinds: %s, WriteCheck: %q,\n", strList(keys), strList(kinds), g.WriteCheck)
 		fmt.Fprintf(&sb, "\t\t\tFields: %s,\n\t\t\tAllFields: %s,\n\t\t\tSelFields: %s,\n", strList(g.Fields), strList(g.AllFields), strList(g.SelFields))
 		fmt.Fprintf(&sb, "\t\t\tNew: func() Updater { return &%s{} },\n", g.List)
+		if g.SliceField != "" {
+			fmt.Fprintf(&sb, "\t\t\tSliceField: %q,\n\t\t\tSetSlice: func(it any, n int) { it.(*%s).%s = make(%s, n) },\n", g.SliceField, g.Item, g.SliceField, g.SliceType)
+		}
 		fmt.Fprintf(&sb, "\t\t\tItems: func(l any) any { return &l.(*%s).%s },\n", g.List, g.ListField)
 		fmt.Fprintf(&sb, "\t\t\tSlice: func(l any) any { return l.(*%s).%s },\n", g.List, g.ListField)
 		fmt.Fprintf(&sb, "\t\t\tLen: func(l any) int { return len(l.(*%s).%s) },\n", g.List, g.ListField)
